@@ -143,6 +143,11 @@ def retry_loop_rule(ck, u, eng, fname, paths, base_param, total_param):
                 ck.violation('C17.b', '%s:%s:retry-pos' % (fname, e.name), e.where(), 'position moves by %s on a retry' % adv)
             continue
         nprog += 1
+        if not eng.entails(facts, -L(res)):
+            ck.violation('C17.c', '%s:%s:negative-progress' % (fname, e.name), e.where(),
+                         'the remaining count is changed by the driver result on a path where that result may be negative ({%s}): a retry signal makes the '
+                         'remaining count GROW, the next transfer starts in front of the caller\'s region and more octets than requested are moved'
+                         % '; '.join(fmt(c) for c in p.cond_terms()[-3:]))
         okm = (moved - L(res)).is_const() and (moved - L(res)).c == 0
         ck.verdict(okm, 'C17.c', '%s:%s:progress' % (fname, e.name), e.where(),
                    'remaining count decreases by exactly the driver\'s result' if okm else
@@ -174,6 +179,7 @@ def retry_loop_rule(ck, u, eng, fname, paths, base_param, total_param):
 
 
 def run(ck):
+    ck.rule('C17.w', 'no transfer count passes through an object narrower than ssize_t (return types and locals of endpoints/core.c): counts beyond INT_MAX are reported as they are')
     ck.rule('C17.a', 'source_adapt / sink_adapt / *_chunk return the requested count on completion (siblings agree)')
     ck.rule('C17.b', 'transfer-position invariant of every retry loop: first transfer at the start of the caller\'s region, position advances by exactly the moved count, never asks for more than remains, unchanged on retry')
     ck.rule('C17.c', 'retry policy: repeat without progress only on -EINTR/-EAGAIN, other negative results returned unchanged, remaining count reduced by exactly the driver result')
@@ -212,6 +218,7 @@ def run(ck):
             retry_loop_rule(ck, u, eng, fn, P[fn], basep, totp)
     rule_d(ck, u, eng, P)
     rule_internal_counts(ck, u, ub, so)
+    rule_widths(ck, u, ub, so)
     rule_e(ck, u, eng, P)
     rule_f(ck, u, ub, so, P, eng)
     rule_ext(ck, u, ub, so)
@@ -288,6 +295,41 @@ def rule_internal_counts(ck, u, ub, so):
         ck.verdict(bad is None, 'C17.d', fn + ':counts', cast.where(u.fn(fn)),
                    'every exact get/put it makes has a count known to be >= 1' if bad is None else bad)
     ck.floor('C17.d', 'internal exact get/put calls examined', n, 3)
+
+
+def rule_widths(ck, u, ub, so):
+    """C17.w counts keep their width: the count a transfer function reports travels as ssize_t; a function (or local) of a
+    narrower type on its way cuts counts beyond INT_MAX - the caller subtracts the wrong amount and keeps pulling octets
+    out of the source after the request is complete."""
+    eng = sym.Engine(u, sizeof=so, inline={'byte_buffer_rest'}, other_units=[ub])
+    wide = {n for n, f in u.functions.items() if cast.qual_type(f).split('(')[0].strip() in ('ssize_t', 'long', 'size_t', 'unsigned long')}
+    nfn = 0
+    for fn in sorted(f for f in u.functions_in_file('endpoints/core.c') if u.body(f) is not None):
+        try:
+            ps = eng.paths(fn)
+        except (sym.Unsupported, sym.PathLimit):
+            continue
+        nfn += 1
+        bad = None
+        for p in ps:
+            terms = ([p.ret] if p.ret is not None else []) + [a for e in p.effects if e.kind in ('call', 'icall') for a in e.args if isinstance(a, tuple)]
+            for t in terms:
+                for x in sym.subterms(t):
+                    if x[0] == 'cast' and x[1] in eng.INT_MAX_OF and not sym.is_c(x[2]):
+                        src = [y for y in sym.subterms(x[2]) if y[0] == 'call' and (y[1] in wide or y[1] in ('source.chunk', 'sink.chunk'))]
+                        if not src:
+                            continue
+                        facts = eng.path_facts(p)
+                        # (stated assumption of this property: a driver reports at most the count it was asked for)
+                        for y in src:
+                            if y[1] in ('source.chunk', 'sink.chunk') and len(y[2]) >= 3:
+                                facts.append(L(y) - L(strip_cast(y[2][2])))
+                        mx = eng.INT_MAX_OF[x[1]]
+                        if not eng.entails(facts, L(x[2]) - mx):
+                            bad = bad or ('the count %s passes through an object of type %s: a single step that moves more than %d octets is reported truncated, '
+                                          'and counted loops built on it move more than was asked for' % (fmt(x[2])[:120], x[1], mx))
+        ck.verdict(bad is None, 'C17.w', fn, cast.where(u.fn(fn)), 'counts are handed on at full width' if bad is None else bad)
+    ck.floor('C17.w', 'functions of endpoints/core.c examined', nfn, 15)
 
 
 def rule_e(ck, u, eng, P):
@@ -988,6 +1030,9 @@ def rule_g(ck):
                     bad = 'moves to the next chunk by %s / not only on -ENODATA' % d
             elif strip_cast(p.ret) != cs[0].result:
                 bad = 'does not return the consume result'
+            elif eng.feasible(p.cond_terms() + [('cmp', '==', cs[0].result, C(-61))]):
+                bad = bad or ('the result of the active chunk is returned although it may be -ENODATA (chunk exhausted) while later chunks still hold octets: '
+                              'a chunk that is empty when the call starts - a zero-length chunk, or one consumed earlier - ends the stream early')
         else:
             if not (p.ret is not None and p.ret == C(-61)):
                 bad = 'returns %s with no chunk left' % fmt(p.ret)
